@@ -21,6 +21,7 @@ void Ctx::violation(const Str& prop, const Str& key, const Str& detail) {
 }
 static Ctx* g_ctx = nullptr;
 Ctx* current_ctx() { return g_ctx; }
+const char* (*crash_explain)(const void* fault_addr) = nullptr;
 }
 using namespace vf;
 
@@ -44,7 +45,7 @@ extern "C" void __asan_on_error(void) { dump(6); }
 
 extern "C" int LLVMFuzzerInitialize(int*, char***) {
     const char* m = getenv("VF_FUZZ_MONITOR"); const char* p = getenv("VF_FUZZ_PROP"); const char* o = getenv("VF_FUZZ_OUT"); const char* s = getenv("VERIF_SEED");
-    g.monitor = m ? m : "parse"; g_prop = p ? p : ""; g_out = o ? o : ""; g.seed = s ? strtoull(s, 0, 10) : 1; g.build = "fuzz"; g.tier = "thorough";
+    g.monitor = m ? m : "parse"; g_prop = p ? p : ""; g_out = o ? o : ""; g.seed = s ? strtoull(s, 0, 10) : 1; g.build = "fuzz"; g.tier = "thorough"; g.set_bitmap_bits((size_t)1 << 27);
     if (const char* k = getenv("VF_FUZZ_KNOWN")) { Str all = k; size_t a = 0; while (a < all.size()) { size_t e = all.find('\n', a); if (e == Str::npos) e = all.size(); if (e > a) g_known.insert(all.substr(a, e - a)); a = e + 1; } }
     for (auto& mon : all_monitors()) if (g.monitor == mon.name) g_mon = &mon;
     if (!g_mon || !g_mon->fuzz_one) { fprintf(stderr, "monitor %s has no fuzz hook\n", g.monitor.c_str()); exit(2); }
